@@ -82,6 +82,7 @@ def check(run):
     depends_on(run, "C02", {"FORMULA"})
     depends_on(run, "C03", {"NEW", "KEY", "COMPL"})
     depends_on(run, "C06", {"COPY"})            # a copied explainer samples from its own (copied) storage
+    depends_on(run, "C18", {"E1"})              # the draws come from the global generators, whose state nobody saves / restores
     # ROW clauses of the imputers
     for cls in imputer_classes(prog):
         if cls.name == "MarginalImputer":
